@@ -192,7 +192,7 @@ PROPS = {
     ),
     "C07": dict(
         # Props.GoPartition (go_RemoveFromISR / go_AddToISR): the persisted in-sync list, which a controller restored from a snapshot elects from, is exactly the in-sync set
-        lean_modules=["Liftbridge.Props.C07", "Liftbridge.Props.GoFailover", "Liftbridge.Props.GoPartition", "Liftbridge.Props.GoElect", "Liftbridge.Props.GoFence"],
+        lean_modules=["Liftbridge.Props.C07", "Liftbridge.Props.GoFailover", "Liftbridge.Props.GoPartition", "Liftbridge.Props.GoElect", "Liftbridge.Props.GoFence", "Liftbridge.Props.GoAck"],
         gen_sources=["server/metadata.go", "server/failover.go", "server/fsm.go", "server/raft.go",
                      "server/partition.go:partition.SetLeader", "server/partition.go:partition.RemoveFromISR", "server/partition.go:partition.AddToISR",
                      "server/partition.go:gomini:partition.inISR", "server/partition.go:gomini:partition.ISRSize", "server/partition.go:gomini:partition.GetLeader"],
